@@ -1146,6 +1146,10 @@ func (s *Sim) endOfRun() {
 		}
 	}
 	// harness sanity: vouchers on each B end are backed by the escrow on the A end
+	// (skipped once the run has recorded a violation: the ledger is then known to be off)
+	if len(s.Viol) > 0 {
+		return
+	}
 	l := s.Ledger
 	for pr := 0; pr < NumPairs; pr++ {
 		for _, d := range []string{DenomUSDC, DenomOther, DenomHuge} {
